@@ -130,10 +130,8 @@ def _classify(kind, s):
     if x == "over" or (x != "under" and abs(x) >= OVERFLOW):
         return Verdict("reject", why="number-overflow", unit=unit, tags=[t for t in tags if t.startswith("near")])
     if x == "under" or (x != 0 and abs(x) < DBL_MIN):
-        # glibc reports ERANGE for (inexact) subnormal results; the docs say nothing: rejected or right value
-        tab = TABLE[kind]
-        if unit in tab or unit == "":
-            return Verdict("lenient", None if x == "under" else x * tab[unit or DEFAULT_UNIT[kind]], "number-underflow", unit)
+        # glibc reports ERANGE for (inexact) subnormal results; the docs say nothing, and a subnormal literal is only known to
+        # +-2^-1075 (huge relative error once multiplied): rejected, or any value
         return Verdict("lenient", None, "number-underflow", unit)
     tab = TABLE[kind]
     if unit == "":
